@@ -2,6 +2,7 @@ package sim
 
 import (
 	"fmt"
+	"math/big"
 	"strings"
 
 	ct "github.com/circlefin/noble-cctp/x/cctp/types"
@@ -32,6 +33,9 @@ func prodCampaign(rc *RunCtx, chains, steps int) {
 				gs.MaxMessageBodySize.Amount = 132
 			case 4: // a fiat-token-factory whose minting denom is spelled with upper-case letters
 				cfg.MintDenom = "uUSDC"
+			}
+			if k%4 == 2 { // stray funds sit in the module account (anyone can send coins to its address)
+				cfg.Funded[moduleBech()] = big.NewInt(1000)
 			}
 		})
 		if err != nil {
